@@ -1,5 +1,8 @@
 use super::{Entry, Key};
 use core::hash::{BuildHasher, Hash};
+#[cfg(json_syntax_verif)]
+use super::verif::SimHashBuilder as DefaultHashBuilder;
+#[cfg(not(json_syntax_verif))]
 use hashbrown::hash_map::DefaultHashBuilder;
 use hashbrown::raw::RawTable;
 
@@ -176,6 +179,23 @@ impl<S> IndexMap<S> {
 		}
 
 		false
+	}
+}
+
+#[cfg(json_syntax_verif)]
+impl<S> IndexMap<S> {
+	/// Verification hook: number of buckets of the raw table and, for each
+	/// occupied bucket, its representative and other positions. Read-only.
+	pub fn verif_dump(&self) -> (usize, Vec<(usize, Vec<usize>)>) {
+		let mut dump = Vec::with_capacity(self.table.len());
+		unsafe {
+			for bucket in self.table.iter() {
+				let indexes = bucket.as_ref();
+				dump.push((indexes.rep, indexes.other.clone()));
+			}
+		}
+		dump.sort();
+		(self.table.buckets(), dump)
 	}
 }
 
